@@ -1,5 +1,7 @@
 /- driver family `disp` (C19): displayed path indices and the local model generators' tables -/
 import MagpyVerif.Model.Display
+import MagpyVerif.Model.DisplayTrig
+import Driver.KernFam
 import Driver.Parse
 
 namespace Driver.DispFam
@@ -31,6 +33,45 @@ def ijk (r : Except Err (List Nat × List Nat × List Nat)) : String :=
   | .error e => "err " ++ errName e
   | .ok (i, j, k) => s!"ok {nats i} ; {nats j} ; {nats k}"
 
+/-- `int(x)` of a non-negative finite double -/
+instance : MagpyVerif.DisplayTrig.FloorNat Float where
+  floorNat x := x.floor.toUInt64.toNat
+
+open MagpyVerif.DisplayTrig in
+/-- coordinate rows (IEEE double, bit patterns): `ok <x…> ; <y…> ; <z…>` -/
+def verts (l : List (MagpyVerif.V3 Float)) : String :=
+  let f (g : MagpyVerif.V3 Float → Float) := " ".intercalate (l.map fun v => toString (g v).toBits)
+  s!"ok {f (·.x)} ; {f (·.y)} ; {f (·.z)}"
+
+open MagpyVerif.DisplayTrig KernFam in
+def runTrig (cmd : String) : P String := do
+  match cmd with
+  | "prismv" => do let N ← nat; let d ← flt; let h ← flt; pure (verts (prismVerts N d h))
+  | "pyrv" => do
+      let N ← nat; let d ← flt; let h ← flt
+      let p ← match (← tok) with
+        | "tail" => pure Pivot.tail
+        | "tip" => pure Pivot.tip
+        | "middle" => pure Pivot.middle
+        | t => throw s!"bad pivot {t}"
+      pure (verts (pyramidVerts N d h p))
+  | "segv" => do
+      let vert ← nat; let r1 ← flt; let r2 ← flt; let h ← flt; let p1 ← flt; let p2 ← flt
+      pure (verts (segVerts vert r1 r2 h p1 p2))
+  | "ellv" => do
+      let N ← nat; let a ← flt; let b ← flt; let c ← flt
+      match ellipsoid N a b c with
+      | .error e => pure ("err " ++ errName e)
+      | .ok l => pure (verts l)
+  | "circ" => do let N ← nat; let d ← flt; pure (verts (circleTrace N d))
+  | "polyl" => do
+      let m ← nat
+      let vs ← many m KernFam.v3
+      let (x, y, z) := polylineTrace vs
+      let f (l : List Float) := " ".intercalate (l.map fun v => toString v.toBits)
+      pure s!"ok {f x} ; {f y} ; {f z}"
+  | t => throw s!"unknown disp command {t}"
+
 def run : P String := do
   match (← tok) with
   | "inds" => do
@@ -55,7 +96,7 @@ def run : P String := do
       pure s!"ok {ints (pts.map (·.1))} ; {ints (pts.map (·.2.1))} ; {ints (pts.map (·.2.2))} ; {nats (t.map (·.1))} ; {nats (t.map (·.2.1))} ; {nats (t.map (·.2.2))}"
   | "prism" => do pure (ijk (prismIJK (← nat)))
   | "pyramid" => do pure (ijk (pyramidIJK (← nat)))
-  | t => throw s!"unknown disp command {t}"
+  | t => runTrig t
 
 def step (line : String) : String :=
   match runLine run line with
